@@ -390,6 +390,9 @@ func init() {
 	reg("NullScan", KDecSet, false, false, true, func(a *Args) Outcome {
 		var nd apd.NullDecimal
 		nd.Decimal.Set(a.D) // the embedded Decimal starts from the destination's prior content
+		// ... and so does the Valid flag: a destination that is not the fresh zero
+		// value stands for a NullDecimal that an earlier Scan filled
+		nd.Valid = a.D.Form != apd.Finite || a.D.Negative || a.D.Exponent != 0 || a.D.Coeff.Sign() != 0
 		var src interface{}
 		switch uint64(a.N) % 6 {
 		case 0:
